@@ -145,8 +145,17 @@ fn c11_case(c: &EngCase, st: &mut Stats, dense: u64) -> Result<(), String> {
                 if !s.legal.contains(&m) {
                     return Err(format!("C11 search of `{fen}` with the limit expiring at poll {k} returns {m}, which is not legal there (legal: [{}])", fmt_moves(&s.legal)));
                 }
-                if first_some.is_none() {
+                if first_some.is_none() && !reuse {
                     first_some = Some(k);
+                }
+            }
+            None if reuse => {
+                // an engine object that carries state from earlier searches (say, a table kept
+                // between searches) may need a different number of polls for its first pass than
+                // the fresh engine that was profiled: only what does not depend on poll counts is
+                // asserted here -- a search that returns by itself must bring a move
+                if !expired && !s.legal.is_empty() {
+                    return Err(format!("C11 [one engine object reused] search of `{fen}` returned by itself (limit at poll {k} never expired) yet returned no move although legal moves exist"));
                 }
             }
             None => {
